@@ -11,6 +11,10 @@
 (*       "previously sent together with that hash"), one representative per  *)
 (*       symmetric request family, histories of any length that send at most *)
 (*       MaxSent distinct <<hash, text>> pairs.                              *)
+(*   MC_ApqTwin.cfg       near-twin texts + an upper-case spelling of a       *)
+(*       digest, map + LRU 1..2, ImplHash = HashOf; edge export.             *)
+(*   MC_ApqTwin_neg.cfg   the same with a NON-INJECTIVE ImplHash (the twins  *)
+(*       collide): TLC must REFUTE Bound / ImplConforms (negative config).   *)
 (*   MC_ApqEvict.cfg / MC_ApqEvict_thorough.cfg                              *)
 (*       the composition with Lru.tla where it matters: LRU only, capacity   *)
 (*       1..3, MORE distinct valid texts than capacity (4 / 5), so every     *)
@@ -37,6 +41,22 @@ FTexts == {"q1", "q2", "q3", "q4", "q5"}
 FHash  == H(FTexts)
 LruOnly == {"lru"}
 NoneOf == {}
+
+\* no alternative spellings of a digest
+NoAlt   == {}
+NoCanon == [h \in {} |-> ""]
+
+\* near-twin alphabet (MC_ApqTwin*.cfg): q1x is a NEAR-TWIN of q1 (concretely: q1 with a CR
+\* inserted, CRLF for LF, a trailing newline, a BOM, an outer space, a tab for a space, a CR
+\* that ends a comment, a literal for a unicode escape - chosen per replay), q2 is unrelated;
+\* u:q1 is the upper-case hex spelling of the digest of q1
+WTexts == {"q1", "q1x", "q2"}
+WHash  == H(WTexts)
+Alt1   == {"u:q1"}
+Canon1 == [h \in Alt1 |-> "h:q1"]
+Caps12W == {1, 2}
+\* a lossy hash: the twins collide (what a normalising computeQueryHash amounts to)
+LossyHash == [t \in WTexts |-> IF t = "q1x" THEN "h:q1" ELSE "h:" \o t]
 
 \* "x:rand": a hash of nothing in the alphabet; "x:empty": sha256Hash absent or ""
 Wrong2 == {"x:rand", "x:empty"}
